@@ -15,12 +15,15 @@ from ..absint import eval_term
 from ..facts import AnalysisError
 from ..terms import const, contains, show, strip_sites
 from ..util import InlineOnly, NoInline, P, Scan, calls_to, engine, loc, param_at, sched_targets
+from .derived import cache_coherence
 from .C10 import ANN, INST, TIMING_VALUATIONS, timing_leaf
 
 PROTO = "sd.ServiceDiscoveryProtocol"
 
 
 def check(run, prog, tier):
+    # which instances answer is decided from the live instance list / running state
+    cache_coherence(run, prog, "F6", ['sd.ServiceAnnouncer', 'sd.ServiceInstance'])
     run.explanation = (
         "handle_findservice and ServiceInstance.matches_find are small: their complete path sets (two loop "
         "iterations = two instances) are enumerated; which instances get an answer scheduled, with which target, "
